@@ -277,7 +277,7 @@ func genTxnScriptF(g *Gen, native, hack, pad bool, steps int, flavor string) []s
 				t.lines = append(t.lines, "env.app a "+t.appOps(1+t.r.Intn(4)))
 			}
 		case 2, 3, 4:
-			ls := []string{"T", "T", "T-1", "0", "T+1"}[t.r.Intn(5)]
+			ls := []string{"T", "T", "T-1", "0", "T+1", "R", "R"}[t.r.Intn(7)]
 			switch {
 			case flavor == "c18":
 				t.lines = append(t.lines, fmt.Sprintf("prop.c18.load a %s %s %d %s", t.snapshot(), ls, t.now(), cut))
@@ -285,7 +285,7 @@ func genTxnScriptF(g *Gen, native, hack, pad bool, steps int, flavor string) []s
 				t.lines = append(t.lines, fmt.Sprintf("prop.c04.load a %s %s %d %s", t.snapshot(), ls, t.now(), cut))
 			case flavor == "c11" && !native:
 				// the loop's bookkeeping: lastSynced is the id after the previous LS transaction
-				t.lines = append(t.lines, fmt.Sprintf("prop.c11.load a %s %s %d %s", t.snapshot(), []string{"0", "T-1", "0"}[t.r.Intn(3)], t.now(), cut))
+				t.lines = append(t.lines, fmt.Sprintf("prop.c11.load a %s %s %d %s", t.snapshot(), []string{"0", "T-1", "R", "R"}[t.r.Intn(4)], t.now(), cut))
 			case flavor == "c10":
 				snap := t.snapshot() // before the op's own windows exist
 				n1 := t.now()
